@@ -398,6 +398,56 @@ def uf_bytes_sym(eng, name, *args):
     return seq_from_array(arr, ln, "bytes")
 
 
+def _dict_of(eng, d):
+    from .values import VDict
+    v = eng.deref(d)
+    if not isinstance(v, VDict):
+        raise EngineError("dict spec function on a value that is not a tracked dict")
+    return v
+
+
+@spec("dict_has", None, "key in d (tracked dict)")
+def dict_has_sym(eng, d, k):
+    from .models import dict_key
+    v = _dict_of(eng, d)
+    return VBool(v.present[dict_key(eng, v, k, None)])
+
+
+@spec("dict_get", None, "d[key] (tracked dict; unconstrained where the key is absent)")
+def dict_get_sym(eng, d, k):
+    from .models import dict_key, from_sort
+    v = _dict_of(eng, d)
+    return from_sort(eng, v.vsort, v.value[dict_key(eng, v, k, None)])
+
+
+@spec("dict_same", None, "the two tracked dicts have the same keys and values (whole-view equality)")
+def dict_same_sym(eng, a, b):
+    x, y = _dict_of(eng, a), _dict_of(eng, b)
+    k = z3.Const(fresh_bound("dk").decl().name() + "!v", x.present.sort().domain())
+    return VBool(z3.And(x.present == y.present, z3.ForAll([k], z3.Implies(x.present[k], x.value[k] == y.value[k]))))
+
+
+@spec("dict_set", None, "b is a with key k set to v and nothing else changed")
+def dict_set_sym(eng, a, b, k, v):
+    from .models import dict_key, to_val
+    x, y = _dict_of(eng, a), _dict_of(eng, b)
+    kk = dict_key(eng, x, k, None)
+    vv = as_int(eng, v) if x.vsort == "int" else to_val(eng, v)
+    q = z3.Const(fresh_bound("dk").decl().name() + "!v", x.present.sort().domain())
+    return VBool(z3.And(y.present == z3.Store(x.present, kk, True), y.value[kk] == vv,
+                        z3.ForAll([q], z3.Implies(z3.And(q != kk, x.present[q]), x.value[q] == y.value[q]))))
+
+
+@spec("dict_del", None, "b is a without key k and nothing else changed")
+def dict_del_sym(eng, a, b, k):
+    from .models import dict_key
+    x, y = _dict_of(eng, a), _dict_of(eng, b)
+    kk = dict_key(eng, x, k, None)
+    q = z3.Const(fresh_bound("dk").decl().name() + "!v", x.present.sort().domain())
+    return VBool(z3.And(y.present == z3.Store(x.present, kk, False),
+                        z3.ForAll([q], z3.Implies(z3.And(q != kk, x.present[q]), x.value[q] == y.value[q]))))
+
+
 @spec("len_of", None, "ghost: number of items of an untracked iterable")
 def len_of_sym(eng, lst):
     from .models import len_of_f, to_val
